@@ -261,3 +261,46 @@ def gen_label_scenario(rng, tier='quick'):
         fault = 'label-lines-foreign-local'
     return {'cfg': cfg, 'files': [{'name': 'main.asm', 'dir': 'src', 'stmts': st}], 'include_dirs': ['lib'], 'extra_files': [],
             'fault': fault, 'opts': _opts(rng, cfg)}
+
+
+# ------------------------------------------------------------------------------------------------ small address spaces
+def gen_small_space_scenario(rng, tier='quick'):
+    """address spaces whose width is not a multiple of 4 bits (an address then needs more hex digits than width/4), data near
+    the top of the space, gaps, muted stretches and zero-length lines: for the output formats"""
+    bits = rng.choice([10, 10, 9, 11, 13, 6])
+    top = (1 << bits) - 1
+    cfg = dict(addr_bits=bits, endian=rng.choice(['little', 'big']), origin=rng.choice([0, 0, 3]), page=1, terminator=0, embedded=False,
+               zones=[], consts=[], data=[], syms=[], cli=[])
+    st = []
+    byte = [0x40]
+
+    def data(n=None):
+        out = []
+        for _ in range(n or rng.randint(1, 4)):
+            byte[0] = (byte[0] + 1) & 0xFF
+            out.append(num(byte[0]))
+        return ['data', 1, out]
+    st.append(data())
+    at = cfg['origin'] + 8
+    for _ in range(rng.randint(1, 4)):
+        at = rng.randint(at, min(top - 6, at + max(2, top // 3)))
+        st.append(['org', num(at), None])
+        r = rng.random()
+        if r < 0.25:
+            st += [['mute'], data(), ['unmute'], data(2)]
+            at += 8
+        elif r < 0.4:
+            st += [['fill', num(0), num(7)], data(2)]
+            at += 4
+        elif r < 0.55:
+            st += [['fill', num(3), num(0x1AB)], ['instr', 'nop', []]]
+            at += 6
+        else:
+            st.append(data())
+            at += 6
+        if at >= top - 8:
+            break
+    if rng.random() < 0.4:
+        st += [['org', num(top - 1), None], data(2)]            # the last two addresses of the space
+    return {'cfg': cfg, 'files': [{'name': 'main.asm', 'dir': 'src', 'stmts': st}], 'include_dirs': ['lib'], 'extra_files': [],
+            'fault': f'small-space-{bits}', 'opts': {'start': 0, 'end': None, 'fill': 0}}
